@@ -276,6 +276,21 @@ Proof.
   rewrite keys_eqb_refl; reflexivity.
 Qed.
 
+(* the model is a function of (locator, value) only: trivially history independent *)
+Theorem same_result_model : forall v loc,
+  same_result (result_of (getAffinityKeysFromMessage loc v)) (result_of (getAffinityKeysFromMessage loc v)) = true.
+Proof.
+  intros. unfold same_result. rewrite !Bool.eqb_reflx, keys_eqb_refl. reflexivity.
+Qed.
+
+Theorem same_result_eq : forall a b, same_result a b = true <-> a = b.
+Proof.
+  intros [p1 e1 k1] [p2 e2 k2]. unfold same_result. simpl. split.
+  - intros H. apply andb_true_iff in H. destruct H as [H H3]. apply andb_true_iff in H. destruct H as [H1 H2].
+    apply Bool.eqb_prop in H1. apply Bool.eqb_prop in H2. apply keys_eqb_eq in H3. congruence.
+  - intros H. inversion H; subst. rewrite !Bool.eqb_reflx, keys_eqb_refl. reflexivity.
+Qed.
+
 (* Soundness of the monitor: whatever result it accepts satisfies the
    statement of C11 literally. *)
 Theorem c11_ok_sound : forall v loc r, C11_ok v loc r = true ->
